@@ -212,6 +212,13 @@ let bw_cert tag (a : M.z M.bw_automaton) (c : case) =
     | Some pvs ->
       let ok = M.bw_cert_ok zeqb a pvs in
       pr "%sCERT %d %d\n" tag (if ok then 1 else 0) (int_of_n (M.bw_cert_count a pvs))
+  else
+    match spec_pvs c with
+    | None -> ()
+    | Some pvs ->
+      (* leftmost: the automaton holds the effective (non-shadowed) patterns under leftmost-first *)
+      let pvs = if c.kind = 2 then M.effective pvs else pvs in
+      pr "%sLCERT %d\n" tag (if M.bw_lm_cert_ok zeqb a pvs then 1 else 0)
 
 let res_n = function M.Ok (t, _) -> int_of_n t | _ -> 0xEEEEEEEE
 let bw_table (a : M.z M.bw_automaton) kind =
@@ -445,7 +452,15 @@ let cert_image (c : case) =
     | M.Ok (a, rest) ->
       pr "ISAFE %d\n" (if M.bw_safe_b a then 1 else 0);
       if rest <> [] then pr "ICERT 0 0 trailing\n"
-      else if a.M.bw_kind <> M.Standard then pr "ICERT - 0 notstandard\n"
+      else if a.M.bw_kind <> M.Standard then begin
+        (match spec_pvs c with
+         | None -> pr "ILCERT - nopvs\n"
+         | Some pvs ->
+           (* the automaton of a leftmost-first build holds the effective (non-shadowed) patterns *)
+           let pvs = if a.M.bw_kind = M.LeftmostFirst then M.effective pvs else pvs in
+           pr "ILCERT %d\n" (if M.bw_lm_cert_ok zeqb a pvs then 1 else 0));
+        pr "ICERT - 0 notstandard\n"
+      end
       else (match spec_pvs c with
           | None -> pr "ICERT - 0 nopvs\n"
           | Some pvs ->
